@@ -1,6 +1,7 @@
 import Knut.Spec.LayoutSpec
 import Knut.Proofs.LayoutFactor
 import Knut.Proofs.LayoutPrint
+import Knut.Proofs.LayoutTree
 import Knut.Properties.C05Verdict
 import Knut.Properties.C05Inserts
 import Knut.Properties.C05Valued
@@ -21,9 +22,20 @@ elaborated by `model.FromStream` (`Commands.elabFile`, accrual expansion include
   `C05_layout_wf` – every journal that loads satisfies `DirsWF` (the account registry's check in `transaction.Create`).
 * `C05_layout_arrival` – the files may arrive from the loader goroutines in any order (C19): the journal is a
   permutation of the depth-first one, so everything above holds for every schedule.
+* `C05_split` – the hypothesis made concrete (constructive side): a *layout* `t : LTree` is an include tree of files, each
+  with a path and a list of items, an item being a directive or an `include` of a child file under some spelling of its
+  path.  Distribute the directives of `ds` in ANY way over the files of ANY such tree (`t.reading.Perm ds`), write
+  every file with the functions of `journal.Print` (`Layout.dirText`, one `include "…"` line per child): on the file
+  system holding exactly these files `journalOf` succeeds, and yields the directives file by file, depth first —
+  a permutation of `ds`.  Hypotheses: the directives are printable (`PrintableDir`, C09: what `journal.Print` writes
+  so that the scanner reads it back), every include spelling resolves — by `path.Join(filepath.Dir(includer), spelling)`
+  — to the path of the included file, and the cleaned paths of the files are pairwise different.
+  `C05_split_reports`: hence two layouts of the same directives give the same verdict, the same balance bytes, and
+  print-equivalent journals.  A closed instance with three files in two directories against one file in reverse order
+  closes the file.
 -/
 namespace Knut.C05
-open Knut Knut.Loader Knut.Commands Knut.Layout Knut.InsertsPerm Knut.JournalPrinter
+open Knut Knut.Loader Knut.Commands Knut.Layout Knut.InsertsPerm Knut.JournalPrinter Knut.FromSyntax
 
 /-- **the commands factor through `journalOf`** -/
 theorem C05_run_factors (c : Command) (hc : c = .check ∨ c = .balance ∨ c = .print) (fs : FileSys) (f : Flags) :
@@ -124,5 +136,159 @@ loaded files in another order gives a permutation of the journal, so all of the 
 theorem C05_layout_arrival (files files' : List LoadedFile) (hp : files.Perm files') (ds : List Directive)
     (h : journalOfFiles files = .ok ds) : ∃ ds', journalOfFiles files' = .ok ds' ∧ ds.Perm ds' :=
   journalOfFiles_perm hp h
+
+/-! ## The constructive side: any distribution of the directives over any include tree -/
+
+/-- **split**: the directives of `ds` distributed in any way over the files of an include tree and written with the
+printer's functions are loaded back as a permutation of `ds` — explicitly: file by file, depth first -/
+theorem C05_split (pad : Nat) (t : LTree) (ds : List Directive) (hassign : t.reading.Perm ds)
+    (hdirs : ∀ x ∈ ds, PrintableDir x)
+    (hedges : ∀ e ∈ t.edges, '"' ∉ e.2.1.toList ∧ resolve e.1 e.2.1 = e.2.2)
+    (hpaths : (t.nodes.map (fun n => pathClean n.1)).Nodup) :
+    journalOf (t.fs pad) t.path = .ok t.journal ∧ t.journal.Perm ds := by
+  have hperm : t.journal.Perm ds := (journal_perm_reading t).trans hassign
+  exact ⟨journalOf_layout pad t (fun x hx => hdirs x (hperm.mem_iff.mp hx)) hedges hpaths, hperm⟩
+
+/-- the exclusion of same-day price clashes is a property of the multiset of directives -/
+theorem C05_prices_distinct_perm {ds ds' : List Directive} (hp : ds.Perm ds') (h : PricesDistinct ds) : PricesDistinct ds' := by
+  intro y
+  exact InsertsPermValued.pairsDistinct_perm (((hp.filterMap _).map _)) (h y)
+
+/-- **two layouts of the same directives**: whatever the two include trees, the paths, the distribution of the
+directives over the files and the column widths, `check` gives the same verdict, `balance` the same bytes for every
+flag vector (under `PricesDistinct`), and `print` journals that differ at most within (day, kind) blocks -/
+theorem C05_split_reports (pad pad' : Nat) (t t' : LTree) (ds : List Directive)
+    (hassign : t.reading.Perm ds) (hassign' : t'.reading.Perm ds) (hdirs : ∀ x ∈ ds, PrintableDir x)
+    (hedges : ∀ e ∈ t.edges, '"' ∉ e.2.1.toList ∧ resolve e.1 e.2.1 = e.2.2)
+    (hedges' : ∀ e ∈ t'.edges, '"' ∉ e.2.1.toList ∧ resolve e.1 e.2.1 = e.2.2)
+    (hpaths : (t.nodes.map (fun n => pathClean n.1)).Nodup) (hpaths' : (t'.nodes.map (fun n => pathClean n.1)).Nodup)
+    (f f' : Flags) (hf : f.path = t.path) (hf' : f'.path = t'.path) :
+    (Cmd.run .check (t.fs pad) f).cls = (Cmd.run .check (t'.fs pad') f').cls ∧
+    (f'.balance = f.balance → PricesDistinct ds → Cmd.run .balance (t.fs pad) f = Cmd.run .balance (t'.fs pad') f') ∧
+    ((Cmd.run .print (t.fs pad) f = .error "processing" ∧ Cmd.run .print (t'.fs pad') f' = .error "processing") ∨
+     (Cmd.run .print (t.fs pad) f = .ok (print (Builder.ofList t.journal).build) ∧
+      Cmd.run .print (t'.fs pad') f' = .ok (print (Builder.ofList t'.journal).build) ∧
+      PrintEquiv (Builder.ofList t.journal).build (Builder.ofList t'.journal).build)) := by
+  obtain ⟨h, hp⟩ := C05_split pad t ds hassign hdirs hedges hpaths
+  obtain ⟨h', hp'⟩ := C05_split pad' t' ds hassign' hdirs hedges' hpaths'
+  rw [← hf] at h
+  rw [← hf'] at h'
+  have hpp : t.journal.Perm t'.journal := hp.trans hp'.symm
+  exact ⟨(C05_layout_verdict _ _ f f' _ _ h h' hpp).1,
+    fun hb hpr => C05_layout_balance_valued _ _ f f' _ _ h h' hpp hb (C05_prices_distinct_perm hp.symm hpr),
+    C05_layout_print _ _ f f' _ _ h h' hpp⟩
+
+/-! ## Non-vacuity: three files in two directories against one file in reverse order
+
+`main.knut` holds an `open`, includes `./inc/a.knut` and ends with a transaction; `inc/a.knut` holds a transaction,
+includes `b.knut` — resolved relative to its own directory: `inc/b.knut` — and an `open`; `inc/b.knut` holds a
+transaction and an `open`.  The directives are those of `xDirs` (`Properties/C05Inserts.lean`: three accounts, three
+transactions in two months).  `all.knut` holds the same directives in reverse order. -/
+
+def exB : LTree := .node "inc/b.knut" (.ofList [.inl (xDirs[4]!), .inl (xDirs[0]!)])
+def exA : LTree := .node "inc/a.knut" (.ofList [.inl (xDirs[5]!), .inr ("b.knut", exB), .inl (xDirs[1]!)])
+def exTree : LTree := .node "main.knut" (.ofList [.inl (xDirs[2]!), .inr ("./inc/a.knut", exA), .inl (xDirs[3]!)])
+def exOne : LTree := .node "all.knut" (.ofList (xDirs.reverse.map .inl))
+
+theorem xDirs_printable : ∀ x ∈ xDirs, PrintableDir x := by decide +kernel
+
+/-- the three files on disk, character for character what an editor shows (day number 1 is 0001-01-02) -/
+example : exTree.nodes.map (fun n => (n.1, (n.2.text 14).toList)) =
+    [("main.knut", "0001-01-02 open Expenses:Food\ninclude \"./inc/a.knut\"\n0001-01-03 \"salary\"\nIncome:Salary  Assets:Bank           100 CHF\n\n".toList),
+     ("inc/a.knut", "0001-02-10 \"food\"\nAssets:Bank    Expenses:Food           5 CHF\n\ninclude \"b.knut\"\n0001-01-02 open Income:Salary\n".toList),
+     ("inc/b.knut", "0001-01-03 \"food\"\nAssets:Bank    Expenses:Food          30 CHF\n\n0001-01-02 open Assets:Bank\n".toList)] := by
+  decide +kernel
+
+/-- `C05_split` applies to the three-file layout: the loader follows `./inc/a.knut` and, from there, `b.knut` -/
+theorem exTree_journal : journalOf (exTree.fs 14) "main.knut" = .ok exTree.journal ∧ exTree.journal.Perm xDirs :=
+  C05_split 14 exTree xDirs (by decide +kernel) xDirs_printable (by decide +kernel) (by decide +kernel)
+
+theorem exOne_journal : journalOf (exOne.fs 0) "all.knut" = .ok exOne.journal ∧ exOne.journal.Perm xDirs :=
+  C05_split 0 exOne xDirs (by decide +kernel) xDirs_printable (by decide +kernel) (by decide +kernel)
+
+/-- the loaded order is file by file, depth first: neither the order of `xDirs` nor its reverse -/
+example : exTree.journal = [xDirs[2]!, xDirs[3]!, xDirs[5]!, xDirs[1]!, xDirs[4]!, xDirs[0]!] ∧
+    exTree.reading = [xDirs[2]!, xDirs[5]!, xDirs[4]!, xDirs[0]!, xDirs[1]!, xDirs[3]!] ∧
+    exOne.journal = xDirs.reverse := by decide +kernel
+
+/-- the layout theorems apply: same verdict (both accepted) … -/
+example : Cmd.run .check (exTree.fs 14) { path := "main.knut" } = Cmd.run .check (exOne.fs 0) { path := "all.knut" } :=
+  (C05_layout_verdict _ _ { path := "main.knut" } { path := "all.knut" } _ _ exTree_journal.1 exOne_journal.1
+    (exTree_journal.2.trans exOne_journal.2.symm)).2 rfl rfl
+
+example : (Cmd.run .check (exTree.fs 14) { path := "main.knut" }).cls = .ok := by
+  rw [run_check_eq, exTree_journal.1]
+  decide +kernel
+
+/-- … the same bytes of the monthly balance report (`xFlags`) … -/
+example : Cmd.run .balance (exTree.fs 14) { path := "main.knut", balance := xFlags } =
+    Cmd.run .balance (exOne.fs 0) { path := "all.knut", balance := xFlags } :=
+  C05_layout_balance _ _ { path := "main.knut", balance := xFlags } { path := "all.knut", balance := xFlags } _ _
+    exTree_journal.1 exOne_journal.1 (exTree_journal.2.trans exOne_journal.2.symm) rfl rfl
+
+/-- … and of the valued one (no price directives: `PricesDistinct` holds trivially) … -/
+example : Cmd.run .balance (exTree.fs 14) { path := "main.knut", balance := { xFlags with valuation := some "CHF" } } =
+    Cmd.run .balance (exOne.fs 0) { path := "all.knut", balance := { xFlags with valuation := some "CHF" } } :=
+  C05_layout_balance_valued _ _ { path := "main.knut", balance := { xFlags with valuation := some "CHF" } }
+    { path := "all.knut", balance := { xFlags with valuation := some "CHF" } } _ _
+    exTree_journal.1 exOne_journal.1 (exTree_journal.2.trans exOne_journal.2.symm) rfl
+    (pricesDistinct_of_pairwise (by decide +kernel))
+
+/-- … and print-equivalent journals: both runs print (the journal is accepted), and what they print differs at most
+within (day, kind) blocks -/
+example : Cmd.run .print (exTree.fs 14) { path := "main.knut" } = .ok (print (Builder.ofList exTree.journal).build) ∧
+    Cmd.run .print (exOne.fs 0) { path := "all.knut" } = .ok (print (Builder.ofList exOne.journal).build) ∧
+    PrintEquiv (Builder.ofList exTree.journal).build (Builder.ofList exOne.journal).build := by
+  rcases C05_layout_print _ _ { path := "main.knut" } { path := "all.knut" } _ _ exTree_journal.1 exOne_journal.1
+    (exTree_journal.2.trans exOne_journal.2.symm) with h | h
+  · exfalso
+    have h1 := h.1
+    rw [run_print_eq, exTree_journal.1] at h1
+    simp only [printOn] at h1
+    have : (Check.run (Builder.ofList exTree.journal).build).isOk = true := by decide +kernel
+    cases hc : Check.run (Builder.ofList exTree.journal).build with
+    | error e => rw [hc] at this; cases this
+    | ok st => rw [hc] at h1; cases h1
+  · exact h
+
+/-- the two built journals are not equal — the two transactions of day 2 arrive in different orders — so `PrintEquiv`,
+not equality of the journals, is what holds in general -/
+example : (Builder.ofList exTree.journal).build ≠ (Builder.ofList exOne.journal).build := by decide +kernel
+
+/-- the same file under another name in another directory, written with another column width: the exact variant
+applies, `print` writes the same bytes -/
+def exOne' : LTree := .node "elsewhere/journal.knut" exOne.items
+
+theorem exOne'_journal : journalOf (exOne'.fs 30) "elsewhere/journal.knut" = .ok exOne'.journal ∧ exOne'.journal.Perm xDirs :=
+  C05_split 30 exOne' xDirs (by decide +kernel) xDirs_printable (by decide +kernel) (by decide +kernel)
+
+example : Cmd.run .print (exOne.fs 0) { path := "all.knut" } = Cmd.run .print (exOne'.fs 30) { path := "elsewhere/journal.knut" } :=
+  C05_layout_print_exact _ _ { path := "all.knut" } { path := "elsewhere/journal.knut" } _ _ exOne_journal.1 exOne'_journal.1
+    (List.Perm.refl _) (fun _ => ⟨rfl, rfl, rfl, rfl, rfl⟩)
+
+/-- the split theorem for two layouts at once -/
+example (f f' : Flags) (hf : f.path = "main.knut") (hf' : f'.path = "all.knut") :
+    (Cmd.run .check (exTree.fs 14) f).cls = (Cmd.run .check (exOne.fs 0) f').cls :=
+  (C05_split_reports 14 0 exTree exOne xDirs (by decide +kernel) (by decide +kernel) xDirs_printable (by decide +kernel)
+    (by decide +kernel) (by decide +kernel) (by decide +kernel) f f' hf hf').1
+
+/-- files may arrive in any order: the reverse arrival order of the three files still yields a permutation -/
+example (files : List LoadedFile) (ds : List Directive) (h : journalOfFiles files = .ok ds) :
+    ∃ ds', journalOfFiles files.reverse = .ok ds' ∧ ds.Perm ds' :=
+  C05_layout_arrival files files.reverse (List.reverse_perm files).symm ds h
+
+/-- every loaded journal is well-formed: here the three-file one -/
+example : DirsWF exTree.journal := C05_layout_wf _ _ _ exTree_journal.1
+
+/-- the factorisation, instantiated -/
+example : Cmd.run .print (exTree.fs 14) { path := "main.knut" } = printOn exTree.journal := by
+  rw [C05_run_factors .print (Or.inr (Or.inr rfl))]
+  show onJournal .print _ (journalOf (exTree.fs 14) "main.knut") = _
+  rw [exTree_journal.1]
+  rfl
+
+/-- the exclusion of price clashes transfers along permutations: here from `xDirs` to the loaded order -/
+example : PricesDistinct exTree.journal :=
+  C05_prices_distinct_perm exTree_journal.2.symm (pricesDistinct_of_pairwise (by decide +kernel))
 
 end Knut.C05
